@@ -1087,6 +1087,13 @@ var oracleRefinements = []string{
 }
 
 func (j *vcJob) deviate(class string, format string, args ...any) {
+	// the statement speaks of FILES the checkpoint does not account for: an empty stray directory holds none and is
+	// counted as a note (it cannot be mistaken for dump content; a fragment that would have to be written at its path
+	// fails the rename and the resume is refused, which the harness checks)
+	if strings.Contains(class, ":empty-directory") {
+		j.devHits["note:"+class]++
+		return
+	}
 	for _, refined := range oracleRefinements {
 		if refined == class {
 			j.devHits["refined:"+class]++
